@@ -32,6 +32,7 @@ def step (st : St) (l : Line) : St × List Msg :=
       need ra "lost" "0" (tag ++ "contents acknowledged before Close are missing or wrong after reopen") ++
       need ra "fds2" "0" (tag ++ "descriptors left open after the reopened store was closed")
     ({ n := st.n + 1 }, p ++ [Msg.flag ("mode-" ++ l.args.get "mode")] ++
+      (if l.args.get "bits2" ≠ "" ∧ l.args.get "bits2" ≠ "8" then [Msg.flag "reopen-translates"] else []) ++
       (if ra.get "parked" = "1" then [Msg.flag "closed-while-cycle-parked", Msg.flag ("parked@" ++ l.args.get "park")] else []))
   | "rfailopen" =>
     let kind := l.args.get "kind"
@@ -46,10 +47,19 @@ def step (st : St) (l : Line) : St × List Msg :=
       need ra "fds" "0" (tag ++ "descriptors left open") ++
       (if kind = "badjson" ∨ kind = "badprijson" then [] else need ra "intact" "yes" (tag ++ "a later open with the original settings does not find the contents intact"))
     ({ n := st.n + 1 }, p ++ [Msg.flag ("failopen-" ++ kind)])
+  | "rpar" =>
+    let tag := s!"parallel lookups ({l.args.get "readers"} readers of {l.args.get "keys"} flushed keys nothing mutates, {l.args.get "writers"} mutators of other keys): "
+    ({ n := st.n + 1 },
+      need ra "open" "ok" (tag ++ "open failed") ++
+      need ra "wrong" "0" (tag ++ s!"a lookup did not return its key's value (first: {ra.get "first"})") ++
+      need ra "after" "0" (tag ++ "keys are missing or wrong after the activity stopped") ++
+      need ra "writererrs" "0" (tag ++ "a mutator of another key failed") ++
+      (if ra.get "ran" = "1" then [Msg.flag "parallel-lookups"] else []))
   | "rcycles" =>
     ({ n := st.n + 1 }, need ra "maxgoroutines" "0" "goroutines accumulate over open/close cycles" ++
       need ra "maxfds" "0" "descriptors accumulate over open/close cycles" ++
-      (if (l.res.splitOn " ").any (·.startsWith "cycles=") then [] else [Msg.prop s!"open/close cycles failed: {l.res}"]) ++ [Msg.flag "cycles"])
+      (if (l.res.splitOn " ").any (·.startsWith "cycles=") then [] else [Msg.prop s!"open/close cycles failed: {l.res}"]) ++ [Msg.flag "cycles"] ++
+      (if l.args.get "alt" = "1" then [Msg.flag "cycles-translate"] else []))
   | _ => (st, [.corr s!"unknown op {l.op}"])
 
 end Driver.Res
